@@ -51,7 +51,16 @@ class C13(Property):
     id = "C13"
     title = "fq_name() is the inverse of find(): it addresses exactly its element"
     proof_module = "Proofs.C13"
-    theorems = []
+    theorems = [
+        "Flatland.C13.Proofs.find_fq",
+        "Flatland.C13.Proofs.fqName_root",
+        "Flatland.C13.Proofs.tokenize_fqName",
+        "Flatland.C13.Proofs.C13_partial",
+        "Flatland.C13.Proofs.find_fq_addressable",
+        "Flatland.C13.Proofs.C13_full_fails",
+        "Flatland.Path.Lemmas.tokenize_segs",
+        "Flatland.Path.Lemmas.pyInt_natStr",
+    ]
     generated_obligations = []
     trusted_base = [
         "Python's int(str) / str(int) and `re` semantics of the two pinned regexes are reproduced as executable Lean "
